@@ -47,6 +47,9 @@ structure Case where
   /-- "" | "live" | "cancelled": a preliminary Run() of the same Statement on the same DB/TX -/
   preCtx : String := ""
   extraSets : Nat := 0
+  /-- the result set has fewer columns than the statement has outputs: every attempt to scan
+      a row is refused (ScanArgs), nothing else changes -/
+  fewCols : Bool := false
 deriving Repr, Inhabited
 
 def Case.onTx (c : Case) : Bool := c.path.startsWith "tx"
@@ -148,7 +151,7 @@ def predict (c : Case) : Pred :=
         let call : GetCall :=
           { outcome := c.dests.startsWith "outcome", nilOutcome := c.dests.startsWith "niloutcome",
             dests := if c.dests == "none" || c.dests == "outcome" then 0 else 1,
-            destsValid := !(c.dests.endsWith "invalid") }
+            destsValid := !(c.dests.endsWith "invalid") && !c.fewCols }
         let (r, w) := queryGet s call w1
         ({ returns := [renderOpt r.err], stored := r.stored.getD 0,
            outcome := if call.outcome then (match r.outcome with | some (some n) => s!"r:{n}" | _ => "nil") else "" }, w)
@@ -160,11 +163,12 @@ def predict (c : Case) : Pred :=
           if c.dests == "ptrnonslice" then [.ok, .notSlice] else
           if c.dests == "sliceint" then [.badElem] else
           if c.dests == "sliceptrint" then [.ok, .badElem] else [.ok]
-        let (r, w) := queryGetAllArgs s args (c.dests.startsWith "valid") w1
+        let (r, w) := queryGetAllArgs s args (c.dests.startsWith "valid" && !c.fewCols) w1
         ({ returns := [renderOpt r.err], appended := r.appended }, w)
       | _ =>
         let (it, w) := iterOpen s w1
-        let (it, w, outs) := runCalls c.calls c.cancelAt 0 it w c.calls
+        let calls := if c.fewCols then c.calls.map (fun x => if x == "get" then "getinvalid" else x) else c.calls
+        let (it, w, outs) := runCalls calls c.cancelAt 0 it w calls
         -- ending the transaction closes result sets the caller left open (database/sql)
         let w := match it.rows with
           | some r => if c.onTx then (r.close w).2.1 else w
@@ -216,6 +220,9 @@ def diffs (c : Case) (p : Pred) (o : Obs) : List (String × String) :=
   (if c.op == "getall" && p.appended != o.appended then [("C15", s!"appended: model {p.appended} impl {o.appended}")] else []) ++
   (if c.op == "get" && p.outcome != o.outcome then [("C15", s!"outcome: model {p.outcome} impl {o.outcome}")] else []) ++
   (if !conc && p.finish != o.finish then [("C12", s!"finish: model {p.finish} impl {o.finish}")] else []) ++
+  -- what a finished transaction answers concerns the transaction property too
+  (if c.onTx && (c.txEnd == "before-query" || c.txEnd == "between") && p.returns != o.returns
+    then [("C12", "returns differ on a finished transaction")] else []) ++
   (if c.preReturn != o.preReturn then [("C20", s!"preliminary run: model {c.preReturn} impl {o.preReturn}")] else []) ++
   -- a disagreement after a cancelled preliminary run also concerns the context property
   (if c.preCtx == "cancelled" && p.returns != o.returns then [("C20", "returns differ after a cancelled preliminary run")] else [])
@@ -255,7 +262,7 @@ def holdsC14 (c : Case) (o : Obs) : Bool :=
    chk pairs 0) &&
   -- a row made current by a successful Next stays available to Get until the next
   -- Next or Close, whatever failed Gets happen in between (no cancellation in play)
-  (c.cancelAt.isSome ||
+  (c.cancelAt.isSome || c.fewCols ||
    (let rec live : List (String × String) → Nat → Bool → Bool
       | [], _, _ => true
       | (call, r) :: rest, k, cur =>
@@ -325,6 +332,13 @@ def holdsC12 (c : Case) (o : Obs) : Bool :=
   -- nothing after the finisher
   ((o.events.dropWhile (fun e => !isFinisher e)).length == 1) &&
   (if c.concurrent > 0 then o.winners == 1
-   else (o.finish.filter (· != "txDone")).length == 1 && o.finish.head? != some "txDone")
+   else (o.finish.filter (· != "txDone")).length == 1 && o.finish.head? != some "txDone") &&
+  -- once the transaction has ended, every call the model answers with ErrTXDone is answered
+  -- with ErrTXDone (a Query created before the end included); with a context that is done
+  -- as well either error may come first
+  (if c.txEnd == "before-query" || c.txEnd == "between" then
+     ((predict c).returns.zip o.returns).all fun (m, r) =>
+       m != "txDone" || r == "txDone" || (c.ctxDone && r == "ctx")
+   else true)
 
 end Sqlair.Rt
